@@ -362,6 +362,14 @@ def run(ctx):
         r3.fail("entities.two_rows", "a second entity row is rejected", ep.loc())
     except Raised as r:
         r3.check("PyXFormError" in r.mro, "entities.two_rows", "a second entity row is rejected with PyXFormError", ep.loc())
+    # ... whatever the second row contains: a row that leaves the dataset cell blank but fills other columns is still
+    # a second row (silently building the entity from the first row alone drops what the author wrote in it)
+    for desc, second in (("second row without dataset, with entity_id", {"entity_id": "${id2}"}), ("second row with only a label", {"label": "L2"}),
+                         ("second row with an unknown column", {"foo": "bar"})):
+        outs2 = list(explore(it, lambda second=second: it.call_function(ep, [[_row(False, False, False, True), dict(second)]], {}, None, ep.node)))
+        okall = bool(outs2) and all(o[1][0] == "raise" and "PyXFormError" in o[1][1].mro for o in outs2)
+        r3.check(okall, f"entities.two_rows[{desc}]", "a second entity row is rejected with PyXFormError on every path", ep.loc(),
+                 why_fail=f"{[(o[1][0], getattr(o[1][1], 'exc_name', None)) for o in outs2][:4]}")
     rules.append(r3)
 
     # ------------------------------------------------------------------ R4
